@@ -253,8 +253,10 @@ func (h *hist) joinCmd(mode string) *pdkg.DKGCommand {
 func mutationsFor(q *pdkg.GossipPacket) []string {
 	muts := []string{"md-addr", "md-sig-flip", "md-sig-short", "md-nil", "md-beacon"}
 	if q.GetProposal() != nil {
-		muts = append(muts, "t-threshold", "t-epoch", "t-timeout", "t-catchup", "t-period", "t-scheme", "t-genesis", "t-seed",
-			"t-beacon", "t-leader-nil", "t-leader-key", "t-joiner-key", "t-remainer-key", "t-remainer-sig", "t-drop-last", "t-add-leaver", "t-swap-lists")
+		// the alterations of fields the signature does not cover come last (they are accepted today)
+		muts = append(muts, "t-threshold", "t-epoch", "t-timeout", "t-catchup", "t-period", "t-scheme", "t-genesis",
+			"t-beacon", "t-leader-nil", "t-remainer-sig", "t-drop-last", "t-add-leaver", "t-swap-lists",
+			"t-joiner-key", "t-seed", "t-leader-key", "t-remainer-key")
 	}
 	if q.GetExecute() != nil {
 		muts = append(muts, "x-time")
